@@ -293,6 +293,39 @@ def is_call_(e, name):
     return isinstance(e, S.E) and e.op == "call" and e.args[0] == name
 
 
+def _read_relative(prog, cls, field, centre):
+    """every method of the class that unpacks ``self.<field>[i]`` uses the unpacked names only as ``<centre of filter i> + name``"""
+    n_readers = 0
+    for m in cls.methods.values():
+        if m.name == "__init__" or not m.params:
+            continue
+        selfn = m.params[0]
+        pm = astq.parents(m)
+        centre_names = set()
+        for st in m.body_nodes():
+            if isinstance(st, ast.Assign) and len(st.targets) == 1 and isinstance(st.targets[0], ast.Name) and isinstance(st.value, ast.Subscript) \
+                    and astq.is_self_attr(st.value.value, selfn, centre):
+                centre_names.add(st.targets[0].id)
+        for st in m.body_nodes():
+            if not (isinstance(st, ast.Assign) and isinstance(st.value, ast.Subscript) and astq.is_self_attr(st.value.value, selfn, field)):
+                continue
+            names = [t.id for t in astq.flatten_targets(st.targets[0]) if isinstance(t, ast.Name)]
+            if not names:
+                return False
+            n_readers += 1
+            for x in m.body_nodes():
+                if isinstance(x, ast.Name) and x.id in names and isinstance(x.ctx, ast.Load):
+                    par = pm.get(id(x))
+                    if not (isinstance(par, ast.BinOp) and isinstance(par.op, ast.Add)):
+                        return False
+                    other = par.right if par.left is x else par.left
+                    is_centre = (isinstance(other, ast.Name) and other.id in centre_names) or (
+                        isinstance(other, ast.Subscript) and astq.is_self_attr(other.value, selfn, centre))
+                    if not is_centre:
+                        return False
+    return n_readers >= 1
+
+
 def gabor_supports(ctx, R, which=("freq", "time")):
     """The advertised Gabor supports are where the Gaussian falls to the threshold eps:
     |H(w)| = C_f exp(-sigma^2 (w - xi)^2 / 2) = eps  <=>  |w - xi| = sqrt(2 (log C_f - log eps)) / sigma,
@@ -327,6 +360,11 @@ def gabor_supports(ctx, R, which=("freq", "time")):
                 raise AnalysisError("%s: per-filter angular support not found in the Gabor constructor" % R)
             lo, hi = norm(sa.args[1]), norm(sa.args[2])
             r = S.compare(S.add(lo, hi), S.mul(two, XI), domain=dom, expand_logs=True)
+            if r["verdict"] != "equal" and S.compare(S.add(lo, hi), S.ZERO, domain=dom, expand_logs=True)["verdict"] == "equal" \
+                    and _read_relative(prog, ctor.cls, "_supports_ang", "_centers_ang"):
+                # the pair is kept relative to the centre, and every reader adds the centre back before using it
+                lo, hi = S.add(lo, XI), S.add(hi, XI)
+                r = {"verdict": "equal"}
             ctx.check(r["verdict"] == "equal", R, ctor, ctor.node, "Gabor (%s): the frequency support is centred on the filter's centre" % mode,
                       "frequency support (%s, %s) is not centred on the centre frequency" % (S.show(lo)[:60], S.show(hi)[:60]))
             got = S.mul(half, S.sub(hi, lo))
